@@ -240,6 +240,24 @@ def reference_model(rep, rec, path):
         rep.note('%s: reference model could not be extracted (%r)' % (name, e))
         rep.add('uninterpreted')
         return
+    # references parked in containers (arrays, tables): somewhere in the same file they must be
+    # released through that container again
+    parked, released = {}, set()
+    for f in funcs:
+        for kind, line, led, detail, conds in f['exits']:
+            for k in led:
+                if k.startswith('<park>'):
+                    parked.setdefault(k[6:], (f['cls'], f['name']))
+                elif k.startswith('<crel>'):
+                    released.add(k[6:])
+    for base, (cls_, fn_) in sorted(parked.items()):
+        rep.add('evaluations')
+        rep.add('containers_checked')
+        if base not in released:
+            rec('container-never-released:%s:%s' % (name, base),
+                '%s: references are stored in the container `%s` (in %s) but no function of the '
+                'file releases a reference through it' % (name, base, fn_),
+                dict(file=name, function=fn_, cls=cls_, container=base))
     for f in funcs:
         fname = f['name']
         where = '%s:%s%s' % (name, (f['cls'] + '.') if f['cls'] else '', fname)
